@@ -666,7 +666,8 @@ class Renderer(object):  # pylint: disable=too-many-instance-attributes
     def add_region(self, o):
         _, how, sel = o
         idx = self.nreg
-        if how == "here" and (abs(self.pr.x) > 6 or abs(self.pr.y) > 6):
+        if how == "here" and (abs(self.pr.x) > 6 or abs(self.pr.y) > 6) and max(abs(self.pr.x), abs(self.pr.y)) < 1e6:
+            # (not around a stress coordinate of 1e15 and more: neighbouring floats are further apart there than the region is wide)
             x, y = self.pr.x, self.pr.y
             if sel % 2:
                 h = (1.25, 2.25, 4.25)[(sel // 2) % 3]
@@ -930,7 +931,7 @@ def cases(draw, p):
             if p["reg_events"] and rnd.visited and draw(st.booleans()):
                 # the user draws a region over a place the tool has been to long ago - and will come back to
                 vx, vy = rnd.visited[draw(st.integers(0, len(rnd.visited) - 1))]
-                if abs(vx) > 6 or abs(vy) > 6:
+                if (abs(vx) > 6 or abs(vy) > 6) and max(abs(vx), abs(vy)) < 1e6:
                     reg = {"type": "circ", "cx": vx + 0.1, "cy": vy - 0.15, "r": 1.3, "id": "r%d" % rnd.nreg}
                     rnd.nreg += 1
                     rnd.regions.append(reg)
